@@ -79,3 +79,33 @@ def alias_findings(model, classes=None):
                                     f'binds a new object to that field, after which this reference is dead (its content frozen at that moment)'))
                         break
     return out, n
+
+
+def descriptor_findings(model):
+    """[(owner class, attribute, descriptor class, module, line, detail)] for class attributes bound to an instance of a class whose
+    `__set__(self, instance, value)` keeps the value on the descriptor object (`self.x = value`) instead of on `instance`:
+    a descriptor is ONE object per class attribute, so every instance of the owner then shares the last value assigned"""
+    sharing = {}
+    for cname, ci in model.classes.items():
+        st = ci.members.get('__set__')
+        if st is None:
+            continue
+        args = [a.arg for a in st.node.args.args]
+        if len(args) < 3:
+            continue
+        me, inst = args[0], args[1]
+        on_self = [x for x in ast.walk(st.node) if isinstance(x, ast.Attribute) and isinstance(x.ctx, ast.Store)
+                   and isinstance(x.value, ast.Name) and x.value.id == me]
+        if on_self:
+            sharing[cname] = (st, on_self[0])
+    out = []
+    if not sharing:
+        return out
+    for cname, ci in model.classes.items():
+        for attr, v in ci.class_attrs.items():
+            if isinstance(v, ast.Call) and isinstance(v.func, ast.Name) and v.func.id in sharing:
+                st, site = sharing[v.func.id]
+                out.append((cname, attr, v.func.id, ci.module, v.lineno,
+                            f'`{attr} = {ast.unparse(v)[:40]}`: {v.func.id}.__set__ stores the value on the descriptor itself (`{ast.unparse(site)}`, line '
+                            f'{site.lineno}), which is one object for the whole class: every {cname} shares the value assigned last'))
+    return out
